@@ -386,9 +386,22 @@ fn linearize(evs: &[Event], init: &MState, now: i64, relax: u8, explored: &mut u
                 continue;
             }
             for next in step(&st, &evs[i].op, &evs[i].out, now, relax) {
-                let key = (done | (1 << i), next);
-                if seen.insert(key.clone()) {
-                    stack.push(key);
+                // A store may reclaim an expired record whenever it stumbles on it — during ANY
+                // operation, not only one that names its id (an opportunistic purge is invisible
+                // until the wall clock jumps backwards): every subset of the expired records may
+                // be gone afterwards.
+                let expired: Vec<u8> = next.iter().filter(|(_, (_, d))| *d <= now).map(|(id, _)| *id).collect();
+                for mask in 0u32..(1 << expired.len()) {
+                    let mut n2 = next.clone();
+                    for (b, id) in expired.iter().enumerate() {
+                        if mask & (1 << b) != 0 {
+                            n2.remove(id);
+                        }
+                    }
+                    let key = (done | (1 << i), n2);
+                    if seen.insert(key.clone()) {
+                        stack.push(key);
+                    }
                 }
             }
         }
